@@ -43,6 +43,12 @@ def run_worker_slice(tag, cases):
                 done = n + 1
                 continue
             p = p2
+        if b"memory allocation of" in p.stderr:
+            # the allocator gave up under the 6 GiB address-space limit of the worker: resource exhaustion, not a crash of the pipeline
+            with open(opath, "a") as f:
+                f.write(json.dumps({"i": n, "src": ["<see case>"], "arity_problem": None, "out_of_memory": True, "events": [{"ev": "reset"}]}) + "\n")
+            done = n + 1
+            continue
         crashes[n] = "worker exit status %s: %s" % (p.returncode, p.stderr.decode(errors="replace")[-300:].strip())
         with open(opath, "a") as f:
             f.write(json.dumps({"i": n, "src": ["<see case>"], "arity_problem": None, "events": [
@@ -122,7 +128,9 @@ def check(tier, seed, t0):
             "rule": "enumerated by TLC: every built-in (arity table of BuiltinTable.tla) x every argument tuple from a boundary pool (NaN, +-inf, -0, "
                     "2^53, 1e30, negatives, fractions, empty / non-ASCII strings, empty / nested / heterogeneous / long NaN-bearing lists, records, "
                     "lambdas incl. (a?, b), built-ins) of length 0 .. max arity + 1, with the arity-error prediction; every token string up to "
-                    "length %d over a 38-token alphabet (joined with and without spaces). Sampled: corpus-mutated sources (examples/, benches/, "
+                    "length %d over a 38-token alphabet (joined with and without spaces). Sampled: grammar-directed whole programs over the full expression language (proggen.rs: assignments as sub-expressions, "
+                    "immediately invoked / parameterless lambdas, inputs and #name references, spreads, optional / rest parameters, do-blocks, built-in calls) "
+                    "with JSON inputs, numbers at the display boundaries (powers of ten and runs of nines +-3 ulps) as literals / to_string / format / JSON input, corpus-mutated sources (examples/, benches/, "
                     "README snippets), token soups, raw random UTF-8, nesting to 64, with JSON input documents incl. function objects. Every case "
                     "runs the whole pipeline (parse, convert, evaluate, render, validate, serialise, JSON text and back, error display, library and "
                     "WASM formatter, tokenizer, WASM evaluate) in worker processes under an address-space limit and a timeout; each stage event is "
@@ -131,6 +139,7 @@ def check(tier, seed, t0):
             "states": rm.distinct + rc.distinct, "transitions": rm.generated, "traces_validated_against_impl": len(allc),
             "cases_per_kind": kinds, "stage_events": stages, "worker_crashes": len(crashes) if crashes else sum(1 for e in events if e.get("stage") == "process"),
             "machine_action_counts": rm.coverage, "slow_cases_rerun_alone": sum(1 for _, o in results if o.get("slow")),
+            "cases_ending_in_allocation_failure_under_the_worker_limit": sum(1 for _, o in results if o.get("out_of_memory")),
             "tlc_wall_s": round(rm.wall + rc.wall + tr.wall, 1),
         },
         "assumptions": ["'all UTF-8 strings' is sampled; only the token-level fragment is exhaustive", "a worker killed by the address-space limit "
